@@ -130,6 +130,18 @@ func c08Pool() (pool []srule) {
 	// value lists with several entries of one polarity (their order must not depend on the parse)
 	pool = append(pool, srule{false, c08P1, []string{"domain=src.org|other.org|third.org"}}, srule{false, c08P1, []string{"domain=~a.org|~b.org|src.org"}},
 		srule{false, c08P1, []string{"denyallow=x.com|y.com|z.com"}})
+	// a rule of 4090 bytes: its twin is longer than 4 KiB
+	{
+		ds := []string{"src.org"}
+		for i := 0; len(c08P1+"$domain="+strings.Join(ds, "|")) < 4090-13; i++ {
+			ds = append(ds, fmt.Sprintf("pad%05d.test", i))
+		}
+		d := strings.Join(ds, "|")
+		for len(c08P1+"$domain="+d) < 4090 {
+			d += "x"
+		}
+		pool = append(pool, srule{false, c08P1, []string{"domain=" + d}})
+	}
 	return pool
 }
 
